@@ -24,6 +24,7 @@ REQUIRED = {"suite_runs": 1, "contract_tour_length_evaluated": 20, "tour_evaluat
             "corner_asymmetric": 20, "dtype_boundary_instances": 50,
             "bound_attained_lower": 20, "bound_attained_upper": 20,
             "instances_all_perms": 20, "multiplier_instances": 30,
+            "size_window_instances": 10,
             "input_layout[F]": 30, "input_layout[T-view]": 30,
             "input_layout[strided]": 30}
 
@@ -269,6 +270,10 @@ def run_shard(ctx, args):
     rng = ctx.rng
     for it in range(args["n"]):
         n = int(rng.choice([2, 2, 3, 3, 4, 5, 6, 7, 8, 10, 13, 17, 25, 40]))
+        if it % 40 == 11:
+            # city counts around 2^6, 2^7, 2^8: index types change there
+            n = int(rng.choice([63, 64, 65, 127, 128, 129, 255, 256, 257]))
+            ctx.count("size_window_instances")
         m, tag = gen_matrix(rng, n)
         mult = 1 if rng.integers(4) else int(rng.choice([2, 3, n, 2 * n]))
         cands = [dt for dt in (np.int8, np.uint8, np.int16, np.uint16,
